@@ -12,6 +12,9 @@ use json_shape::JsonShape;
 
 #[cfg(test)]
 mod test;
+#[cfg(feature = "verif_hooks")]
+/// Verification hooks (feature `verif_hooks`)
+pub mod verif_hooks;
 
 /// Include generated json shapes as serializable structs.
 ///
